@@ -166,7 +166,7 @@ func (p *Path) tryMerge(fr *Frame, b *ssa.BasicBlock, c *Term) (join *ssa.BasicB
 	phis := p.specBranch(fr, b, c, J)
 	p.spec = outer
 	for phi, v := range phis {
-		fr.env[phi] = v
+		fr.set(phi, v)
 	}
 	p.merges++
 	return J, true
@@ -174,10 +174,10 @@ func (p *Path) tryMerge(fr *Frame, b *ssa.BasicBlock, c *Term) (join *ssa.BasicB
 
 func (p *Path) specBranch(fr *Frame, b *ssa.BasicBlock, c *Term, J *ssa.BasicBlock) map[*ssa.Phi]Value {
 	g := p.spec.guard
-	frT := &Frame{fn: fr.fn, env: map[ssa.Value]Value{}, envParent: fr, visits: fr.visits}
+	frT := &Frame{fn: fr.fn, env: append([]Value(nil), fr.env...), idx: fr.idx, visits: fr.visits}
 	p.spec.guard = mkAnd(g, c)
 	vT := p.specRun(frT, b.Succs[0], b, J)
-	frF := &Frame{fn: fr.fn, env: map[ssa.Value]Value{}, envParent: fr, visits: fr.visits}
+	frF := &Frame{fn: fr.fn, env: append([]Value(nil), fr.env...), idx: fr.idx, visits: fr.visits}
 	p.spec.guard = mkAnd(g, mkNot(c))
 	vF := p.specRun(frF, b.Succs[1], b, J)
 	p.spec.guard = g
@@ -218,7 +218,7 @@ func (p *Path) specRun(fr *Frame, start, prev, J *ssa.BasicBlock) map[*ssa.Phi]V
 			case *ssa.Phi:
 				for i, pred := range b.Preds {
 					if pred == prev {
-						fr.env[x] = p.get(fr, x.Edges[i])
+						fr.set(x, p.get(fr, x.Edges[i]))
 						break
 					}
 				}
